@@ -79,7 +79,12 @@ fn pblock(b: &DocumentBlock) -> String {
         DocumentBlock::OrderedList(l) => format!("(BList {})", glist(&l.items.iter().map(|i| blocks(i)).collect::<Vec<_>>())),
         DocumentBlock::BulletList(l) => format!("(BList {})", glist(&l.items.iter().map(|i| blocks(i)).collect::<Vec<_>>())),
         DocumentBlock::HorizontalRule(r) => format!("(BRule {})", lr(&r.line_range)),
-        DocumentBlock::Table(t) => format!("(BTable {})", lr(&t.line_range)),
+        DocumentBlock::Table(t) => format!(
+            "(BTable {} {} {})",
+            lr(&t.line_range),
+            glist(&t.header.iter().map(|c| inl(c)).collect::<Vec<_>>()),
+            glist(&t.rows.iter().map(|r| glist(&r.iter().map(|c| inl(c)).collect::<Vec<_>>())).collect::<Vec<_>>())
+        ),
         other => panic!("harness: unmodelled DocumentBlock {:?}", other),
     }
 }
